@@ -68,7 +68,10 @@ def exec_align(job):
             if c["mode"] == "origin":
                 est.align_origin(ref)
                 return None
-            return est.align(ref, correct_scale=(c["mode"] == "sim"), correct_only_scale=(c["mode"] == "scale"), n=c["n"])
+            # n as a numpy integer in every other case (e.g. the result of a searchsorted), scale-only requested the way ape() / rpe() do
+            nn = np.int64(c["n"]) if n % 2 else c["n"]
+            return est.align(ref, correct_scale=(c["mode"] == "sim" or (c["mode"] == "scale" and (n // 2) % 2 == 1)),
+                             correct_only_scale=(c["mode"] == "scale"), n=nn)
         r1 = call()
         o["after"] = _poses(est, gm, far)
         r2 = call()
@@ -116,7 +119,10 @@ def exec_opt(job):
     x, y = np.array(c["x"], dtype=float), np.array(c["y"], dtype=float)
     N = len(x)
     quat = np.tile([1.0, 0, 0, 0], (N, 1))
-    est, ref = PosePath3D(x.copy(), quat.copy()), PosePath3D(y.copy(), quat.copy())
+    if (n // 4) % 2:        # integer coordinates handed over as integer arrays
+        est, ref = PosePath3D(x.astype(np.int64), quat.copy()), PosePath3D(y.astype(np.int64), quat.copy())
+    else:
+        est, ref = PosePath3D(x.copy(), quat.copy()), PosePath3D(y.copy(), quat.copy())
     before = float(np.sum((x - y) ** 2))
     try:
         if (n // 2) % 2:
